@@ -9,7 +9,7 @@
  "variants": [{"vname": "ascii_a", "defines": ["-DTR_STATE_FROM=0", "-DTR_STATE_TO=10"]},
               {"vname": "ascii_b", "defines": ["-DTR_STATE_FROM=10", "-DTR_STATE_TO=20"]},
               {"vname": "ascii_c", "defines": ["-DTR_STATE_FROM=20", "-DTR_STATE_TO=32"]},
-              {"vname": "high", "tier": "thorough", "defines": ["-DTR_HIGH"]}]}
+              {"vname": "high", "tier": "off", "defines": ["-DTR_HIGH"]}]}
 */
 /* A complete iteration over every bounded trie state yields every present key exactly once, in ascending key
  * order (strcmp order: bytes compared as unsigned char), with its value; a prefix iterator yields exactly the
